@@ -41,6 +41,8 @@ def run(ctx, rep):
     PRM.check_parser_premises(fx, rep, "C03.P")
     R1.check_remap_frame_mapper(fx, rep, "C03.4")
     LR.check_frame_comparators(fx, rep, "C03.4")
+    # (the comparators only order the search: the slice of same-(name, params) entries is what the equal-range search returns)
+    R1.check_find_range(fx, rep, "C03.R")
     LR.check_section_slices(fx, rep, "C03.4")
     CF.check_parse(fx, rep, "C03.4p")       # (the cache's answers start from the sections `parse` slices out of the file)
     # "of that class": the frame's class is found by the exact class lookup (mapper: hash map get; cache: binary search with the
